@@ -46,6 +46,12 @@ func typeIs(t types.Type, pkgPath string, names ...string) bool {
 }
 
 func recvObj(fn *FuncInfo) types.Object {
+	if fn.Decl.Recv == nil && fn.Now != "" && strings.Contains(fn.Name, ".") {
+		// a method that became a plain function: its first parameter is the former receiver
+		if ps := fn.Decl.Type.Params.List; len(ps) > 0 && len(ps[0].Names) > 0 {
+			return fn.Info().Defs[ps[0].Names[0]]
+		}
+	}
 	if fn.Decl.Recv == nil || len(fn.Decl.Recv.List) != 1 || len(fn.Decl.Recv.List[0].Names) != 1 {
 		return nil
 	}
